@@ -237,6 +237,15 @@ class RandInfoBuilder(ModelVisitor,RandIF):
         
         # Save information on dist constraints to the 
         # appropriate randset
+        # A dist inside if/else or implies only applies while the
+        # enclosing conditions hold
+        s.guard_cond = None
+        for cond in self._soft_cond_l:
+            if s.guard_cond is None:
+                s.guard_cond = cond
+            else:
+                s.guard_cond = ExprBinModel(s.guard_cond, BinExprType.And, cond)
+
         if self._active_randset is not None:
             f = self._expr2fm.field(s.dist_c.lhs)
             if f in self._active_randset.dist_field_m.keys():
